@@ -1,5 +1,6 @@
 import MithrilModel.AggChain
 import MithrilModel.AggAttr
+import MithrilModel.AggSe
 /-!
 C15, progress: from every state of the aggregator model that satisfies the state invariant `SInv`
 (proved for every run with cut ticks in `AggChain`) and whose runtime is `idle` / `ready` — in
@@ -342,6 +343,32 @@ theorem scan_spec (E : Env) (tp : Tp) : ∀ (l : List Nat) (oms : List OM) (e : 
           · rw [if_neg hx]; exact hs
         · intro x; rw [i4, openable_markExpired]
 
+/-- the scan creates an open message for the selected entity only -/
+theorem scan_fresh (E : Env) (tp : Tp) : ∀ (l : List Nat) (oms : List OM) (x : Nat), findOm x oms = none →
+    (scan E tp l oms).2 ≠ some x → findOm x (scan E tp l oms).1 = none := by
+  intro l
+  induction l with
+  | nil => intro oms x h _; exact h
+  | cons a r ih =>
+    intro oms x h hne
+    have h1 : findOm x (markExpired tp.now a oms) = none := by
+      rw [findOm_markExpired]; split <;> simp [h]
+    rw [scan_cons] at hne ⊢
+    split
+    · rename_i hnone
+      rw [hnone] at hne
+      have hxa : ¬ (newOm E tp a).entity = x := by
+        intro hh; apply hne; simp only [newOm] at hh; rw [hh]
+      rw [findOm_append, h1]; simp [hxa]
+    · rename_i o hsome
+      rw [hsome] at hne
+      dsimp only at hne ⊢
+      split
+      · exact h1
+      · rename_i hcond
+        rw [if_neg hcond] at hne
+        exact ih _ x h1 hne
+
 /-! ### the single ticks of a round -/
 
 theorem OpenAt.msg_eq {now : Nat} {oms : List OM} {e m : Nat} (h : OpenAt now oms e m) (d : Nat) : omMsg oms d e = m := by
@@ -411,16 +438,18 @@ theorem ready_tick {E : Env} {s : St} {tp : Tp} {e : Nat} (hrt : s.rt = .ready t
     (step E s (.tick tp)).certs = s.certs ∧ (step E s (.tick tp)).regs = s.regs ∧
     ((step E s (.tick tp)).rt = .signing tp.epoch e ∨ (step E s (.tick tp)).rt = .ready tp.epoch) ∧
     ((findOm e s.oms).isSome = true → (step E s (.tick tp)).rt = .signing tp.epoch e) ∧
-    target (step E s (.tick tp)) tp = some e := by
+    target (step E s (.tick tp)) tp = some e ∧
+    (∀ x, x ≠ e → findOm x s.oms = none → findOm x (step E s (.tick tp)).oms = none) := by
   obtain ⟨i1, i2, i3, i4⟩ := scan_spec E tp tp.avail s.oms e ht
+  have i5 := fun x => scan_fresh E tp tp.avail s.oms x
   cases hsc : scan E tp tp.avail s.oms with
   | mk oms' res =>
-    rw [hsc] at i1 i2 i3 i4
-    dsimp only at i1 i2 i3 i4
+    rw [hsc] at i1 i2 i3 i4 i5
+    dsimp only at i1 i2 i3 i4 i5
     subst i1
     obtain ⟨o1, o2, o3, o4, o5⟩ := readyStep_out hsc
     rw [step_tick_ready hrt]
-    refine ⟨?_, o2, o3, ?_, ?_, ?_⟩
+    refine ⟨?_, o2, o3, ?_, ?_, ?_, ?_⟩
     · show OpenAt tp.now (readyStep E s tp).oms e _
       rw [o1]; exact i2
     · rw [hrt] at o4; exact o4
@@ -428,6 +457,10 @@ theorem ready_tick {E : Env} {s : St} {tp : Tp} {e : Nat} (hrt : s.rt = .ready t
     · show tp.avail.find? (openable tp.now (readyStep E s tp).oms) = some e
       rw [o1, ← ht]
       exact find?_congr' (fun x _ => i4 x)
+    · intro x hx hf
+      show findOm x (readyStep E s tp).oms = none
+      rw [o1]
+      exact i5 x hf (by intro hh; simp only [Option.some.injEq] at hh; exact hx hh.symm)
 
 /-- the IDLE tick under the hypotheses of a productive round: the epoch is initialised and the state machine is READY -/
 theorem idle_tick {E : Env} {s : St} {tp : Tp} {last : Option Nat} (hi : SInv E s) (hrt : s.rt = .idle last)
@@ -570,7 +603,8 @@ theorem final_tick {E : Env} {s : St} {tp : Tp} {e m : Nat} (hi : SInv E s) (hrt
     (hq : E.quorum e (s.sigs.filter (·.entity = e)) = true) :
     ∃ c, (step E s (.tick tp)).certs = s.certs ++ [c] ∧ c.entity = some e ∧ c.epoch = tp.epoch ∧
       c.id = s.certs.length ∧ (step E s (.tick tp)).rt = .ready tp.epoch ∧
-      (step E s (.tick tp)).regs = s.regs ∧ (step E s (.tick tp)).seen = tp.epoch := by
+      (step E s (.tick tp)).regs = s.regs ∧ (step E s (.tick tp)).seen = tp.epoch ∧
+      (step E s (.tick tp)).oms = updOm e (fun o => { o with certified := true }) s.oms := by
   obtain ⟨o, hfo, hc, hx, hst, hm⟩ := hom
   obtain ⟨hom', hoe'⟩ := findOm_some hfo
   have hoe : o.epoch = tp.epoch := by
@@ -600,7 +634,7 @@ theorem final_tick {E : Env} {s : St} {tp : Tp} {e m : Nat} (hi : SInv E s) (hrt
   rw [hfo] at ho'
   simp only [Option.some.injEq] at ho'
   subst ho'
-  refine ⟨c, ?_, by rw [hceq], by rw [hceq]; exact hoe, by rw [hceq], ?_, ?_, rfl⟩
+  refine ⟨c, ?_, by rw [hceq], by rw [hceq]; exact hoe, by rw [hceq], ?_, ?_, rfl, ?_⟩
   · show (tick E s tp).certs = _
     rw [htick, createCertificate_eq, hnew]
   · show (tick E s tp).rt = _
@@ -608,6 +642,8 @@ theorem final_tick {E : Env} {s : St} {tp : Tp} {e m : Nat} (hi : SInv E s) (hrt
     show readyOf s.rt = _
     rw [hrt]; rfl
   · show (tick E s tp).regs = _
+    rw [htick, createCertificate_eq, hnew]
+  · show (tick E s tp).oms = _
     rw [htick, createCertificate_eq, hnew]
 
 /-! ### reaching SIGNING -/
@@ -657,11 +693,12 @@ structure Reach (E : Env) (tp : Tp) (e : Nat) (C : List CertRec) (R : List (Nat 
   certs : ((toSigning E tp n s).foldl (step E) s).certs = C
   regs : ((toSigning E tp n s).foldl (step E) s).regs = R
   om : OpenAt tp.now ((toSigning E tp n s).foldl (step E) s).oms e m
+  fresh : ∀ x, x ≠ e → findOm x s.oms = none → findOm x ((toSigning E tp n s).foldl (step E) s).oms = none
 
 theorem Reach.done {E : Env} {tp : Tp} {e m : Nat} {s : St} (n : Nat) (hi : SInv E s) (hrt : s.rt = .signing tp.epoch e)
     (hom : OpenAt tp.now s.oms e m) : Reach E tp e s.certs s.regs m s n := by
   have h0 : toSigning E tp n s = [] := toSigning_signing n (by rw [hrt]; rfl)
-  refine ⟨?_, ?_, ?_, ?_, ?_, ?_, ?_, ?_⟩ <;> rw [h0]
+  refine ⟨?_, ?_, ?_, ?_, ?_, ?_, ?_, ?_, ?_⟩ <;> rw [h0]
   · intro ev hev; simp at hev
   · show s.rt.isBlocked = false; rw [hrt]; rfl
   · trivial
@@ -670,13 +707,15 @@ theorem Reach.done {E : Env} {tp : Tp} {e m : Nat} {s : St} (n : Nat) (hi : SInv
   · rfl
   · rfl
   · exact hom
+  · intro x _ h; exact h
 
 theorem Reach.tick {E : Env} {tp : Tp} {e m : Nat} {C : List CertRec} {R : List (Nat × Nat)} {s : St} {n : Nat}
     (hs : s.rt.isSigning = false) (hb : s.rt.isBlocked = false) (hw : Wf E s tp)
+    (hf : ∀ x, x ≠ e → findOm x s.oms = none → findOm x (step E s (.tick tp)).oms = none)
     (h : Reach E tp e C R m (step E s (.tick tp)) n) : Reach E tp e C R m s (n + 1) := by
   have h0 := toSigning_succ (E := E) (tp := tp) n hs
-  obtain ⟨a1, a2, a3, a4, a5, a6, a7, a8⟩ := h
-  refine ⟨?_, ?_, ?_, ?_, ?_, ?_, ?_, ?_⟩ <;> rw [h0]
+  obtain ⟨a1, a2, a3, a4, a5, a6, a7, a8, a9⟩ := h
+  refine ⟨?_, ?_, ?_, ?_, ?_, ?_, ?_, ?_, ?_⟩ <;> rw [h0]
   · intro ev hev
     rcases List.mem_cons.mp hev with rfl | hev
     · rfl
@@ -688,6 +727,7 @@ theorem Reach.tick {E : Env} {tp : Tp} {e m : Nat} {C : List CertRec} {R : List 
   · exact a6
   · exact a7
   · exact a8
+  · intro x hx h; exact a9 x hx (hf x hx h)
 
 /-- from READY at the round's epoch: one tick, or two when the hand-over made the first one die -/
 theorem ready_reach {E : Env} {tp : Tp} {e : Nat} {s : St} (n : Nat) (hi : SInv E s) (hrt : s.rt = .ready tp.epoch)
@@ -695,24 +735,24 @@ theorem ready_reach {E : Env} {tp : Tp} {e : Nat} {s : St} (n : Nat) (hi : SInv 
     Reach E tp e s.certs s.regs (omMsg s.oms tp.newmsg e) s (n + 2) := by
   have hw : Wf E s tp := ⟨by rw [← (hi.ready _ hrt).1]; exact Nat.le_refl _, hav⟩
   have hi1 : SInv E (step E s (.tick tp)) := step_sinv (.tick tp) hi hw
-  obtain ⟨b1, b2, b3, b4, _, b6⟩ := ready_tick (E := E) hrt ht
+  obtain ⟨b1, b2, b3, b4, _, b6, b7⟩ := ready_tick (E := E) hrt ht
   have hns : s.rt.isSigning = false := by rw [hrt]; rfl
   have hnb : s.rt.isBlocked = false := by rw [hrt]; rfl
   rcases b4 with b4 | b4
   · have := Reach.done (n + 1) hi1 b4 b1
     rw [b2, b3] at this
-    exact Reach.tick hns hnb hw this
+    exact Reach.tick hns hnb hw b7 this
   · -- the tick died in the hand-over: the open message is stored, the next tick finds it
     have hw1 : Wf E (step E s (.tick tp)) tp := ⟨Nat.le_refl _, hav⟩
     have hi2 : SInv E (step E (step E s (.tick tp)) (.tick tp)) := step_sinv (.tick tp) hi1 hw1
-    obtain ⟨c1, c2, c3, _, c5, _⟩ := ready_tick (E := E) b4 b6
+    obtain ⟨c1, c2, c3, _, c5, _, c7⟩ := ready_tick (E := E) b4 b6
     have c5' := c5 b1.isSome
     rw [b1.msg_eq] at c1
     have := Reach.done n hi2 c5' c1
     rw [c2, c3, b2, b3] at this
     have hns1 : (step E s (.tick tp)).rt.isSigning = false := by rw [b4]; rfl
     have hnb1 : (step E s (.tick tp)).rt.isBlocked = false := by rw [b4]; rfl
-    exact Reach.tick hns hnb hw (Reach.tick hns1 hnb1 hw1 this)
+    exact Reach.tick hns hnb hw b7 (Reach.tick hns1 hnb1 hw1 c7 this)
 
 theorem findOm_epochInit {E : Env} {s : St} {tp : Tp} (hi : SInv E s) {x : Nat} (hx : E.entityEpoch x = tp.epoch) :
     findOm x (s.oms.filter (fun o => tp.epoch ≤ o.epoch)) = findOm x s.oms := by
@@ -751,7 +791,12 @@ theorem idle_reach {E : Env} {tp : Tp} {e : Nat} {s : St} {last : Option Nat} (n
   have hc : (step E s (.tick tp)).certs = s.certs := by rw [hst]; rfl
   have hr : (step E s (.tick tp)).regs = s.regs := by rw [hst]; rfl
   rw [hc, hr] at this
-  exact Reach.tick (by rw [hrt]; rfl) (by rw [hrt]; rfl) hw this
+  refine Reach.tick (by rw [hrt]; rfl) (by rw [hrt]; rfl) hw ?_ this
+  intro x _ hx
+  rw [hst]
+  show findOm x (s.oms.filter (fun o => tp.epoch ≤ o.epoch)) = none
+  rw [findOm_filter (fun o ho hox => absurd hox (findOm_none hx o ho))]
+  exact hx
 
 /-- from READY of an earlier epoch: the first tick goes back to IDLE -/
 theorem readyold_reach {E : Env} {tp : Tp} {e : Nat} {s : St} {ep : Nat} (n : Nat) (hi : SInv E s)
@@ -768,10 +813,13 @@ theorem readyold_reach {E : Env} {tp : Tp} {e : Nat} {s : St} {ep : Nat} (n : Na
     rw [hrt]
     simp [hlt]
   rw [hst] at hi1
-  have := idle_reach (E := E) (tp := tp) (e := e) (s := { s with rt := .idle (some ep), seen := tp.epoch }) n hi1 rfl
-    (Nat.le_refl _) hav hpre hgap hok ht
+  have : Reach E tp e s.certs s.regs (omMsg s.oms tp.newmsg e) { s with rt := .idle (some ep), seen := tp.epoch } (n + 3) :=
+    idle_reach (E := E) (tp := tp) (e := e) (s := { s with rt := .idle (some ep), seen := tp.epoch }) n hi1 rfl
+      (Nat.le_refl _) hav hpre hgap hok ht
   rw [← hst] at this
-  exact Reach.tick (by rw [hrt]; rfl) (by rw [hrt]; rfl) hw this
+  refine Reach.tick (by rw [hrt]; rfl) (by rw [hrt]; rfl) hw ?_ this
+  intro x _ hx
+  rw [hst]; exact hx
 
 /-! ### the productive round -/
 
@@ -809,7 +857,8 @@ theorem productive_round {E : Env} {k : Nat} {s : St} {r : Round} (hq : QuorumBy
       ((cont E s r).foldl (step E) s).rt = .ready r.tp.epoch ∧ ((cont E s r).foldl (step E) s).regs = s.regs ∧
       ((cont E s r).foldl (step E) s).seen = r.tp.epoch ∧ SInv E ((cont E s r).foldl (step E) s) ∧
       NB E s (cont E s r) ∧ RunWfC E s (cont E s r) ∧
-      (∀ ev ∈ cont E s r, ev = .tick r.tp ∨ ∃ g, ev = .signature e g) := by
+      (∀ ev ∈ cont E s r, ev = .tick r.tp ∨ ∃ g, ev = .signature e g) ∧
+      (∀ x, x ≠ e → findOm x s.oms = none → findOm x ((cont E s r).foldl (step E) s).oms = none) := by
   obtain ⟨hseen, hav, hpre, hgap, hok, htg, hreg, hk⟩ := hp
   obtain ⟨e, ht⟩ := Option.isSome_iff_exists.mp htg
   have hmem : e ∈ r.tp.avail := List.mem_of_find?_eq_some ht
@@ -826,10 +875,8 @@ theorem productive_round {E : Env} {k : Nat} {s : St} {r : Round} (hq : QuorumBy
         exact ready_reach 2 hi hrt hav ht
     | blocked a b => rw [hrt] at hres; cases hres
     | signing a b => rw [hrt] at hres; cases hres
-  obtain ⟨p1, p2, p3, p4, p5, p6, p7, p8⟩ := hreach
+  obtain ⟨p1, p2, p3, p4, p5, p6, p7, p8, p9⟩ := hreach
   -- the signatures
-  have hsg := hi.signing -- placeholder to keep `hi` used uniformly
-  clear hsg
   obtain ⟨q1, q2, q3⟩ := p4.signing _ _ p5
   have hmk : ∀ p, (honestSig r (omMsg s.oms r.tp.newmsg e) p).party = p ∧ (honestSig r (omMsg s.oms r.tp.newmsg e) p).signer = p ∧
       (honestSig r (omMsg s.oms r.tp.newmsg e) p).msg = omMsg s.oms r.tp.newmsg e ∧
@@ -857,7 +904,7 @@ theorem productive_round {E : Env} {k : Nat} {s : St} {r : Round} (hq : QuorumBy
   have hseen2 : ((r.parties.map (fun p => Event.signature e (honestSig r (omMsg s.oms r.tp.newmsg e) p))).foldl (step E)
       ((toSigning E r.tp 4 s).foldl (step E) s)).seen ≤ r.tp.epoch := by rw [f6, ← q1]; exact Nat.le_refl _
   have hgap2 := (noGap_congr r.tp (f2.trans p6)).trans hgap
-  obtain ⟨c, g1, g2, g3, g4, g5, g6, g7⟩ := final_tick hi2 (f3.trans p5) (by rw [f1]; exact p8) hmem hgap2 hseen2 hquorum
+  obtain ⟨c, g1, g2, g3, g4, g5, g6, g7, g8⟩ := final_tick hi2 (f3.trans p5) (by rw [f1]; exact p8) hmem hgap2 hseen2 hquorum
   have hw2 : Wf E ((r.parties.map (fun p => Event.signature e (honestSig r (omMsg s.oms r.tp.newmsg e) p))).foldl (step E)
       ((toSigning E r.tp 4 s).foldl (step E) s)) r.tp := ⟨hseen2, hav⟩
   have hi3 := step_sinv (.tick r.tp) hi2 hw2
@@ -869,16 +916,16 @@ theorem productive_round {E : Env} {k : Nat} {s : St} {r : Round} (hq : QuorumBy
   refine ⟨e, c, ht, ?_⟩
   rw [hcont]
   simp only [List.foldl_append, List.foldl_cons, List.foldl_nil]
-  refine ⟨?_, g2, g3, ?_, g5, ?_, g7, hi3, ?_, ?_, ?_⟩
+  refine ⟨?_, g2, g3, ?_, g5, ?_, g7, hi3, ?_, ?_, ?_, ?_⟩
   · rw [g1, f2, p6]
   · rw [g4, f2, p6]
   · rw [g6, f5, p7]
-  · rw [NB_append, NB_append]
+  · rw [NB_append, NB_append, List.foldl_append]
     refine ⟨⟨p2, n1⟩, ?_, ?_⟩
     · rw [f3, p5]; rfl
     · show (step E _ (.tick r.tp)).rt.isBlocked = false
       rw [g5]; rfl
-  · rw [RunWfC_append, RunWfC_append]
+  · rw [RunWfC_append, RunWfC_append, List.foldl_append]
     exact ⟨⟨p3, n2⟩, hw2, trivial⟩
   · intro ev hev
     simp only [List.mem_append, List.mem_map, List.mem_singleton] at hev
@@ -886,5 +933,562 @@ theorem productive_round {E : Env} {k : Nat} {s : St} {r : Round} (hq : QuorumBy
     · exact Or.inl (p1 ev hev)
     · exact Or.inr ⟨_, rfl⟩
     · exact Or.inl rfl
+  · intro x hx hf
+    rw [g8, findOm_updOm e x (fun o => { o with certified := true }) (fun _ => rfl), if_neg hx, f1]
+    exact p9 x hx hf
+
+/-! ### which entity is certified -/
+
+/-- the interrupted round is resumed when the time point still offers its entity first and its open
+message is neither flagged certified nor expired -/
+theorem target_head {s : St} {tp : Tp} {e0 : Nat} {rest : List Nat} (hav : tp.avail = e0 :: rest)
+    (h : openable tp.now s.oms e0 = true) : target s tp = some e0 := by
+  unfold target; rw [hav, List.find?_cons, h]
+
+/-- an entity whose open message is flagged certified is never the round's entity: a superseding one is -/
+theorem target_not_certified {s : St} {tp : Tp} {e : Nat} {o : OM} (h : target s tp = some e)
+    (ho : findOm e s.oms = some o) : o.certified = false ∧ e ∈ tp.avail := by
+  have h1 := List.find?_some h
+  have h2 := List.mem_of_find?_eq_some h
+  unfold openable at h1
+  rw [ho] at h1
+  simp only [Bool.and_eq_true, Bool.not_eq_true'] at h1
+  exact ⟨h1.1, h2⟩
+
+/-! ### iterating: progress for ever, never blocked -/
+
+theorem genesisEpoch_append {certs : List CertRec} {c : CertRec} (h : c.entity.isSome = true) :
+    genesisEpoch (certs ++ [c]) = genesisEpoch certs := by
+  unfold genesisEpoch
+  have : (certs ++ [c]).filter (·.entity.isNone) = certs.filter (·.entity.isNone) := by
+    rw [List.filter_append]
+    have : [c].filter (·.entity.isNone) = [] := by
+      cases hc : c.entity with
+      | none => rw [hc] at h; cases h
+      | some x => simp [hc]
+    rw [this, List.append_nil]
+  rw [this]
+
+/-- the state after a certified round of epoch `ep` -/
+structure After (E : Env) (s : St) (ep : Nat) : Prop where
+  inv : SInv E s
+  rt : s.rt = .ready ep
+  seen : s.seen = ep
+  genesis : ∃ g, genesisEpoch s.certs = some g ∧ g < ep
+  last : ∃ l, s.certs.getLast? = some l ∧ l.epoch = ep
+
+/-- what a round that follows a certified round of epoch `ep` needs. The gap rule of the model
+(`idleStep`, `master`): the round's epoch is `ep` or `ep + 1` — no epoch without a certificate in
+between. The rest are inputs: offered entities of the epoch, one of them signable, signers registered
+under the keys `epoch - 1` and `epoch`, the submitting parties among them, indices reaching the quorum. -/
+def NextOk (E : Env) (k : Nat) (s : St) (ep : Nat) (r : Round) : Prop :=
+  ep ≤ r.tp.epoch ∧ r.tp.epoch ≤ ep + 1 ∧ (∀ e ∈ r.tp.avail, E.entityEpoch e = r.tp.epoch) ∧
+  signersOk s r.tp = true ∧ (target s r.tp).isSome = true ∧
+  (∀ p ∈ r.parties, p ∈ signersOf s.regs (r.tp.epoch - 1)) ∧
+  k ≤ (r.parties.flatMap r.idx).eraseDups.length
+
+instance (E : Env) (k : Nat) (s : St) (ep : Nat) (r : Round) : Decidable (NextOk E k s ep r) := by
+  unfold NextOk; infer_instance
+
+theorem productive_of_after {E : Env} {k : Nat} {s : St} {ep : Nat} {r : Round} (ha : After E s ep)
+    (hn : NextOk E k s ep r) : Productive E k s r := by
+  obtain ⟨h1, h2, h3, h4, h5, h6, h7⟩ := hn
+  obtain ⟨g, hg, hgl⟩ := ha.genesis
+  obtain ⟨l, hl, hle⟩ := ha.last
+  refine ⟨by rw [ha.seen]; exact h1, h3, ?_, ?_, h4, h5, h6, h7⟩
+  · unfold preNeeded; rw [hg]; simp; omega
+  · unfold noGap; rw [hl]; simp; omega
+
+theorem after_of_round {E : Env} {s s' : St} {tp : Tp} {c : CertRec} {e : Nat} (hpre : preNeeded s tp = true)
+    (hc : s'.certs = s.certs ++ [c]) (hce : c.entity = some e) (hcp : c.epoch = tp.epoch)
+    (hrt : s'.rt = .ready tp.epoch) (hseen : s'.seen = tp.epoch) (hi : SInv E s') : After E s' tp.epoch := by
+  refine ⟨hi, hrt, hseen, ?_, ⟨c, by rw [hc]; simp, hcp⟩⟩
+  rw [hc, genesisEpoch_append (by rw [hce]; rfl)]
+  unfold preNeeded at hpre
+  cases hge : genesisEpoch s.certs with
+  | none => simp [hge] at hpre
+  | some g => exact ⟨g, rfl, by simpa [hge] using hpre⟩
+
+/-- the events of a plan: the productive continuation of each round, computed in the state the round meets -/
+def runPlan (E : Env) : St → List Round → List Event
+  | _, [] => []
+  | s, r :: rest => cont E s r ++ runPlan E ((cont E s r).foldl (step E) s) rest
+
+/-- every round of the plan has its inputs, in the state it meets, after a certified round of epoch `ep` -/
+def PlanOk (E : Env) (k : Nat) : St → Nat → List Round → Prop
+  | _, _, [] => True
+  | s, ep, r :: rest => NextOk E k s ep r ∧ PlanOk E k ((cont E s r).foldl (step E) s) r.tp.epoch rest
+
+instance PlanOk.dec (E : Env) (k : Nat) : ∀ (rounds : List Round) (s : St) (ep : Nat), Decidable (PlanOk E k s ep rounds)
+  | [], _, _ => isTrue trivial
+  | r :: rest, s, ep =>
+    match (inferInstance : Decidable (NextOk E k s ep r)), PlanOk.dec E k rest ((cont E s r).foldl (step E) s) r.tp.epoch with
+    | isTrue a, isTrue b => isTrue ⟨a, b⟩
+    | isFalse a, _ => isFalse (fun h => a h.1)
+    | _, isFalse b => isFalse (fun h => b h.2)
+
+theorem plan_after {E : Env} {k : Nat} (hq : QuorumByIndices E k) : ∀ (rounds : List Round) (s : St) (ep : Nat),
+    After E s ep → PlanOk E k s ep rounds →
+    ((runPlan E s rounds).foldl (step E) s).certs.length = s.certs.length + rounds.length ∧
+    s.certs <+: ((runPlan E s rounds).foldl (step E) s).certs ∧
+    ((runPlan E s rounds).foldl (step E) s).regs = s.regs ∧
+    NB E s (runPlan E s rounds) ∧ RunWfC E s (runPlan E s rounds) ∧
+    SInv E ((runPlan E s rounds).foldl (step E) s) ∧ ((runPlan E s rounds).foldl (step E) s).rt.resumable = true := by
+  intro rounds
+  induction rounds with
+  | nil =>
+    intro s ep ha _
+    refine ⟨rfl, List.prefix_refl _, rfl, ?_, trivial, ha.inv, ?_⟩
+    · show s.rt.isBlocked = false; rw [ha.rt]; rfl
+    · show s.rt.resumable = true; rw [ha.rt]; rfl
+  | cons r rest ih =>
+    intro s ep ha hpl
+    obtain ⟨hn, hrest⟩ := hpl
+    have hp := productive_of_after ha hn
+    have hres : s.rt.resumable = true := by rw [ha.rt]; rfl
+    obtain ⟨e, c, _, g1, g2, g3, _, g5, g6, g7, g8, g9, g10, _, _⟩ := productive_round hq ha.inv hres hp
+    have ha' := after_of_round hp.2.2.1 g1 g2 g3 g5 g7 g8
+    obtain ⟨i1, i2, i3, i4, i5, i6, i7⟩ := ih _ _ ha' hrest
+    simp only [runPlan, List.foldl_append]
+    refine ⟨?_, ?_, ?_, ?_, ?_, i6, i7⟩
+    · rw [i1, g1]; simp; omega
+    · refine List.IsPrefix.trans ?_ i2
+      rw [g1]; exact List.prefix_append _ _
+    · rw [i3, g6]
+    · rw [NB_append]; exact ⟨g9, i4⟩
+    · rw [RunWfC_append]; exact ⟨g10, i5⟩
+
+/-- **Progress for ever.** From a state with the invariant that is IDLE or READY (after a restart in
+particular): a first productive round, then any number of rounds each of which has its inputs
+(`NextOk`: the epoch of a round is the epoch of the round before or the next one, signers are
+registered, a signable entity is offered, the quorum is reachable). Every round inserts one
+certificate, nothing stored is touched, the runtime is never BLOCKED, the whole continuation is a
+well-formed run, and the end state can be continued again. -/
+theorem progress_forever {E : Env} {k : Nat} {s : St} (hq : QuorumByIndices E k) (hi : SInv E s)
+    (hres : s.rt.resumable = true) (r : Round) (rest : List Round) (hp : Productive E k s r)
+    (hrest : PlanOk E k ((cont E s r).foldl (step E) s) r.tp.epoch rest) :
+    ((runPlan E s (r :: rest)).foldl (step E) s).certs.length = s.certs.length + (rest.length + 1) ∧
+    s.certs <+: ((runPlan E s (r :: rest)).foldl (step E) s).certs ∧
+    NB E s (runPlan E s (r :: rest)) ∧ RunWfC E s (runPlan E s (r :: rest)) ∧
+    SInv E ((runPlan E s (r :: rest)).foldl (step E) s) ∧
+    ((runPlan E s (r :: rest)).foldl (step E) s).rt.resumable = true := by
+  obtain ⟨e, c, _, g1, g2, g3, _, g5, g6, g7, g8, g9, g10, _, _⟩ := productive_round hq hi hres hp
+  have ha' := after_of_round hp.2.2.1 g1 g2 g3 g5 g7 g8
+  obtain ⟨i1, i2, _, i4, i5, i6, i7⟩ := plan_after hq rest _ _ ha' hrest
+  simp only [runPlan, List.foldl_append]
+  refine ⟨?_, ?_, ?_, ?_, i6, i7⟩
+  · rw [i1, g1]; simp; omega
+  · refine List.IsPrefix.trans ?_ i2
+    rw [g1]; exact List.prefix_append _ _
+  · rw [NB_append]; exact ⟨g9, i4⟩
+  · rw [RunWfC_append]; exact ⟨g10, i5⟩
+
+/-! ### a plan stated on inputs only: rounds over entities that have no open message yet -/
+
+theorem signersOk_congr {s s' : St} (tp : Tp) (h : s'.regs = s.regs) : signersOk s' tp = signersOk s tp := by
+  unfold signersOk; rw [h]
+
+/-- rounds after a certified round of epoch `ep`, each offering one entity `e` that has no open message in
+the start state `s0` and was not used by an earlier round of the plan; every condition is on `s0` and
+on the inputs: the epochs never skip one, signers are registered in `s0` under the keys of every round's
+epoch, the submitting parties are among them and their indices reach `k` -/
+def FreshPlan (E : Env) (k : Nat) (s0 : St) : Nat → List Nat → List Round → Prop
+  | _, _, [] => True
+  | ep, used, r :: rest =>
+    ∃ e, r.tp.avail = [e] ∧ e ∉ used ∧ findOm e s0.oms = none ∧ E.entityEpoch e = r.tp.epoch ∧
+      ep ≤ r.tp.epoch ∧ r.tp.epoch ≤ ep + 1 ∧ signersOk s0 r.tp = true ∧
+      (∀ p ∈ r.parties, p ∈ signersOf s0.regs (r.tp.epoch - 1)) ∧
+      k ≤ (r.parties.flatMap r.idx).eraseDups.length ∧
+      FreshPlan E k s0 r.tp.epoch (e :: used) rest
+
+theorem planOk_of_fresh {E : Env} {k : Nat} (hq : QuorumByIndices E k) {s0 : St} :
+    ∀ (rounds : List Round) (s : St) (ep : Nat) (used : List Nat),
+    After E s ep → s.regs = s0.regs → (∀ x, x ∉ used → findOm x s0.oms = none → findOm x s.oms = none) →
+    FreshPlan E k s0 ep used rounds → PlanOk E k s ep rounds := by
+  intro rounds
+  induction rounds with
+  | nil => intro s ep used _ _ _ _; trivial
+  | cons r rest ih =>
+    intro s ep used ha hregs hfresh hpl
+    obtain ⟨e, h1, h2, h3, h4, h5, h6, h7, h8, h9, h10⟩ := hpl
+    have hopen : openable r.tp.now s.oms e = true := by
+      unfold openable; rw [hfresh e h2 h3]
+    have ht : target s r.tp = some e := target_head h1 hopen
+    have hn : NextOk E k s ep r := by
+      refine ⟨h5, h6, ?_, ?_, ?_, ?_, h9⟩
+      · intro x hx; rw [h1] at hx; simp only [List.mem_singleton] at hx; rw [hx]; exact h4
+      · rw [signersOk_congr r.tp hregs]; exact h7
+      · rw [ht]; rfl
+      · rw [hregs]; exact h8
+    refine ⟨hn, ?_⟩
+    have hp := productive_of_after ha hn
+    have hres : s.rt.resumable = true := by rw [ha.rt]; rfl
+    obtain ⟨e', c, ht', g1, g2, g3, _, g5, g6, g7, g8, _, _, _, g12⟩ := productive_round hq ha.inv hres hp
+    rw [ht] at ht'
+    simp only [Option.some.injEq] at ht'
+    subst ht'
+    have ha' := after_of_round hp.2.2.1 g1 g2 g3 g5 g7 g8
+    refine ih _ _ (e :: used) ha' (g6.trans hregs) ?_ h10
+    intro x hx hx0
+    simp only [List.mem_cons, not_or] at hx
+    exact g12 x hx.1 (hfresh x hx.2 hx0)
+
+/-- **Progress for ever, stated on the inputs.** After the first productive round (which certifies `e0`),
+any plan of rounds over entities without an open message (`FreshPlan`) certifies one entity per round. -/
+theorem progress_forever_fresh {E : Env} {k : Nat} {s : St} (hq : QuorumByIndices E k) (hi : SInv E s)
+    (hres : s.rt.resumable = true) (r : Round) (rest : List Round) (hp : Productive E k s r) (e0 : Nat)
+    (ht : target s r.tp = some e0) (hplan : FreshPlan E k s r.tp.epoch [e0] rest) :
+    ((runPlan E s (r :: rest)).foldl (step E) s).certs.length = s.certs.length + (rest.length + 1) ∧
+    s.certs <+: ((runPlan E s (r :: rest)).foldl (step E) s).certs ∧
+    NB E s (runPlan E s (r :: rest)) ∧ RunWfC E s (runPlan E s (r :: rest)) ∧
+    SInv E ((runPlan E s (r :: rest)).foldl (step E) s) ∧
+    ((runPlan E s (r :: rest)).foldl (step E) s).rt.resumable = true := by
+  obtain ⟨e', c, ht', g1, g2, g3, _, g5, g6, g7, g8, _, _, _, g12⟩ := productive_round hq hi hres hp
+  rw [ht] at ht'
+  simp only [Option.some.injEq] at ht'
+  subst ht'
+  have ha' := after_of_round hp.2.2.1 g1 g2 g3 g5 g7 g8
+  refine progress_forever hq hi hres r rest hp (planOk_of_fresh hq rest _ _ [e0] ha' g6 ?_ hplan)
+  intro x hx hx0
+  simp only [List.mem_singleton] at hx
+  exact g12 x hx hx0
+
+/-! ### the state after `crash tp p; restart` -/
+
+theorem post_crash {E : Env} {s0 : St} {tp : Tp} {p : CrashPoint} (hi : SInv E s0) (hw : Wf E s0 tp) :
+    SInv E (step E (step E s0 (.crash tp p)) .restart) ∧
+    (step E (step E s0 (.crash tp p)) .restart).rt = .idle none ∧
+    (step E (step E s0 (.crash tp p)) .restart).seen = tp.epoch :=
+  ⟨step_sinv .restart (step_sinv (.crash tp p) hi hw) trivial, rfl, rfl⟩
+
+/-- every event leaves the certificate table alone or appends one certificate of a signed entity -/
+theorem step_certs (E : Env) (s : St) (ev : Event) :
+    (step E s ev).certs = s.certs ∨ ∃ c, (step E s ev).certs = s.certs ++ [c] ∧ c.entity.isSome = true := by
+  have hcrash : ∀ tp p, (crashTick E s tp p).certs = s.certs ∨
+      ∃ c, (crashTick E s tp p).certs = s.certs ++ [c] ∧ c.entity.isSome = true := by
+    intro tp p
+    unfold crashTick
+    split
+    · exact Or.inl (idleStep_se s tp _).2
+    · split <;> exact Or.inl rfl
+    · split
+      · exact Or.inl rfl
+      · exact Or.inl (readyStepCut_se E s tp p).2
+    · unfold signingStepCut
+      dsimp only
+      split
+      · exact Or.inl rfl
+      · split
+        · exact Or.inl rfl
+        · split
+          · rename_i c hc
+            obtain ⟨o, m, _, _, _, _, _, hceq⟩ := newCert_spec hc
+            have hent : c.entity.isSome = true := by rw [hceq]; rfl
+            unfold createCertificateCut
+            cases p <;> dsimp only
+            · exact Or.inl rfl
+            all_goals exact Or.inr ⟨c, rfl, hent⟩
+          · exact Or.inl rfl
+  cases ev with
+  | tick tp =>
+    show (tick E s tp).certs = _ ∨ ∃ c, (tick E s tp).certs = _ ∧ _
+    rw [tick_eq_crashTick]; exact hcrash tp _
+  | crash tp p => exact hcrash tp p
+  | signature e g =>
+    left
+    show (registerSig E s e g).certs = _
+    unfold registerSig
+    split <;> rfl
+  | register k p =>
+    left
+    show (register s k p).certs = _
+    unfold register
+    split <;> rfl
+  | expire e => exact Or.inl rfl
+  | restart => exact Or.inl rfl
+
+/-- the genesis epoch of a run from `init n g` stays `g` -/
+theorem run_genesis (E : Env) (g : Nat) : ∀ (evs : List Event) (s : St), genesisEpoch s.certs = some g →
+    genesisEpoch (evs.foldl (step E) s).certs = some g := by
+  intro evs
+  induction evs with
+  | nil => intro s h; exact h
+  | cons ev r ih =>
+    intro s h
+    apply ih
+    rcases step_certs E s ev with h1 | ⟨c, h1, h2⟩
+    · rw [h1]; exact h
+    · rw [h1, genesisEpoch_append h2]; exact h
+
+theorem genesis_init (n g : Nat) : genesisEpoch (init n g).certs = some g := by
+  simp [init, genesisEpoch]
+
+/-! ### the goal `C15_progress_goal` quantifies over too much -/
+
+theorem newCert_none_of_no_quorum (E : Env) (hq : ∀ e rows, E.quorum e rows = false) (s : St) (e : Nat) :
+    newCert E s e = none := by
+  unfold newCert
+  repeat' split
+  all_goals first
+    | rfl
+    | (rename_i h; rw [hq] at h; cases h)
+
+/-- with an environment whose quorum test never passes, ticks and signatures never insert a certificate -/
+theorem no_quorum_no_certificate (E : Env) (hq : ∀ e rows, E.quorum e rows = false) (s : St) (ev : Event)
+    (hev : ∃ tp', ev = .tick tp' ∨ ∃ e g', ev = .signature e g') : (step E s ev).certs = s.certs := by
+  obtain ⟨tp', rfl | ⟨e, g', rfl⟩⟩ := hev
+  · show (tick E s tp').certs = s.certs
+    unfold tick
+    split
+    · exact (idleStep_se s tp' _).2
+    · split <;> rfl
+    · split
+      · rfl
+      · exact (readyStep_core E s tp').2.1
+    · unfold signingStep
+      dsimp only
+      split
+      · rfl
+      · split
+        · rfl
+        · rw [createCertificate_eq, newCert_none_of_no_quorum E hq]
+  · show (registerSig E s e g').certs = _
+    unfold registerSig
+    split <;> rfl
+
+theorem no_quorum_run (E : Env) (hq : ∀ e rows, E.quorum e rows = false) : ∀ (evs : List Event) (s : St),
+    (∀ ev ∈ evs, ∃ tp', ev = .tick tp' ∨ ∃ e g', ev = .signature e g') → (evs.foldl (step E) s).certs = s.certs := by
+  intro evs
+  induction evs with
+  | nil => intro s _; rfl
+  | cons ev r ih =>
+    intro s h
+    simp only [List.foldl_cons]
+    rw [ih _ (fun ev' hev' => h ev' (List.mem_cons_of_mem _ hev'))]
+    exact no_quorum_no_certificate E hq s ev (h ev (by simp))
+
+/-! ### an open message is never flagged certified without a stored certificate
+
+The other way a stop could lose a round: the flag set, the certificate missing — the scan would skip the
+entity for ever. No cut produces that state: the insert comes before the update. -/
+
+def Flagged (oms : List OM) (certs : List CertRec) : Prop :=
+  ∀ o ∈ oms, o.certified = true → ∃ c ∈ certs, c.entity = some o.entity
+
+theorem Flagged.mono {oms : List OM} {certs certs' : List CertRec} (h : Flagged oms certs)
+    (hc : ∀ c ∈ certs, c ∈ certs') : Flagged oms certs' := by
+  intro o ho hf
+  obtain ⟨c, hcm, hce⟩ := h o ho hf
+  exact ⟨c, hc c hcm, hce⟩
+
+theorem Flagged.updOm {oms : List OM} {certs : List CertRec} (e : Nat) {f : OM → OM}
+    (hf : ∀ o, (f o).entity = o.entity ∧ ((f o).certified = true → o.certified = true)) (h : Flagged oms certs) :
+    Flagged (updOm e f oms) certs := by
+  intro o ho hfl
+  obtain ⟨o0, h0, h1⟩ := mem_updOm ho
+  rcases h1 with rfl | ⟨_, rfl⟩
+  · exact h _ h0 hfl
+  · rw [(hf o0).1]; exact h o0 h0 ((hf o0).2 hfl)
+
+theorem Flagged.markExpired {oms : List OM} {certs : List CertRec} (now e : Nat) (h : Flagged oms certs) :
+    Flagged (markExpired now e oms) certs :=
+  Flagged.updOm e (fun o => ⟨expireFn_entity now o, fun hh => by rw [expireFn_certified] at hh; exact hh⟩) h
+
+theorem Flagged.scan (E : Env) (tp : Tp) {certs : List CertRec} : ∀ (l : List Nat) (oms : List OM), Flagged oms certs →
+    Flagged (scan E tp l oms).1 certs := by
+  intro l
+  induction l with
+  | nil => intro oms h; exact h
+  | cons a r ih =>
+    intro oms h
+    have h1 := Flagged.markExpired tp.now a h
+    rw [scan_cons]
+    split
+    · intro o ho hfl
+      rcases List.mem_append.mp ho with ho | ho
+      · exact h1 o ho hfl
+      · simp only [List.mem_singleton] at ho; subst ho; simp [newOm] at hfl
+    · split
+      · exact h1
+      · exact ih _ h1
+
+theorem Flagged.certify {oms : List OM} {certs : List CertRec} {e : Nat} {c : CertRec} (hc : c.entity = some e)
+    (h : Flagged oms certs) : Flagged (updOm e (fun o => { o with certified := true }) oms) (certs ++ [c]) := by
+  intro o ho hfl
+  obtain ⟨o0, h0, h1⟩ := mem_updOm ho
+  rcases h1 with rfl | ⟨he, rfl⟩
+  · obtain ⟨c', hc', hce'⟩ := h o h0 hfl
+    exact ⟨c', List.mem_append_left _ hc', hce'⟩
+  · refine ⟨c, by simp, ?_⟩
+    rw [hc]
+    show some e = some o0.entity
+    rw [he]
+
+theorem idleStep_oms (s : St) (tp : Tp) (last : Option Nat) :
+    (idleStep s tp last).oms = s.oms ∨ (idleStep s tp last).oms = s.oms.filter (fun o => tp.epoch ≤ o.epoch) := by
+  unfold idleStep
+  dsimp only
+  cases (last.isNone || last.any (· < tp.epoch))
+  · simp only [Bool.false_and, Bool.false_eq_true, if_false]
+    repeat' split
+    all_goals exact Or.inl rfl
+  · simp only [Bool.true_and, if_true]
+    repeat' split
+    all_goals exact Or.inr rfl
+
+theorem readyStepCut_oms (E : Env) (s : St) (tp : Tp) (p : CrashPoint) :
+    (readyStepCut E s tp p).oms = (scan E tp tp.avail s.oms).1 := by
+  unfold readyStepCut
+  split
+  · rename_i oms' e heq
+    rw [heq]
+    dsimp only
+    have hc := handOverGo_core e (({ s with oms := oms' } : St).buf.filter (·.disc = E.entityDisc e)).reverse { s with oms := oms' } []
+    have hN : (handOverNoRemoval E { s with oms := oms' } e).1.oms = oms' := by
+      unfold handOverNoRemoval
+      split <;> (rename_i heq3; rw [heq3] at hc; exact hc.1)
+    have hH : (handOver E { s with oms := oms' } e).1.oms = oms' := (handOver_core E { s with oms := oms' } e).1
+    split
+    · rfl
+    · split
+      · rfl
+      · split
+        · rename_i s2 heq2; rw [heq2] at hN; exact hN
+        · rename_i s2 heq2; rw [heq2] at hN; exact hN
+      · split
+        · rename_i s2 heq2; rw [heq2] at hH; exact hH
+        · rename_i s2 heq2; rw [heq2] at hH; exact hH
+  · rename_i oms' heq
+    rw [heq]
+
+theorem crashTick_flagged (E : Env) (s : St) (tp : Tp) (p : CrashPoint) (h : Flagged s.oms s.certs) :
+    Flagged (crashTick E s tp p).oms (crashTick E s tp p).certs := by
+  unfold crashTick
+  split
+  · rw [(idleStep_se s tp _).2]
+    rcases idleStep_oms s tp ‹_› with h1 | h1 <;> rw [h1]
+    · exact h
+    · intro o ho; exact h o (List.mem_filter.mp ho).1
+  · split <;> exact h
+  · split
+    · exact h
+    · rw [(readyStepCut_se E s tp p).2, readyStepCut_oms]
+      exact Flagged.scan E tp _ _ h
+  · rename_i ep e _
+    have h1 : Flagged (markExpired tp.now e s.oms) s.certs := Flagged.markExpired tp.now e h
+    unfold signingStepCut
+    dsimp only
+    split
+    · exact h1
+    · split
+      · exact h1
+      · split
+        · rename_i c hc
+          obtain ⟨o, m, _, _, _, _, _, hceq⟩ := newCert_spec hc
+          have hent : c.entity = some e := by rw [hceq]
+          have h2 : Flagged (markExpired tp.now e s.oms) (s.certs ++ [c]) := h1.mono (fun c' hc' => List.mem_append_left _ hc')
+          have h3 := Flagged.certify hent h1
+          unfold createCertificateCut
+          cases p <;> dsimp only
+          · exact h1
+          · exact h2
+          all_goals exact h3
+        · exact h1
+
+theorem step_flagged (E : Env) (s : St) (ev : Event) (h : Flagged s.oms s.certs) :
+    Flagged (step E s ev).oms (step E s ev).certs := by
+  cases ev with
+  | tick tp =>
+    show Flagged (tick E s tp).oms (tick E s tp).certs
+    rw [tick_eq_crashTick]; exact crashTick_flagged E s tp _ h
+  | crash tp p => exact crashTick_flagged E s tp p h
+  | signature e g =>
+    show Flagged (registerSig E s e g).oms (registerSig E s e g).certs
+    unfold registerSig
+    split <;> exact h
+  | register k p =>
+    show Flagged (register s k p).oms (register s k p).certs
+    unfold register
+    split <;> exact h
+  | expire e => exact Flagged.updOm e (fun o => ⟨rfl, fun hh => hh⟩) h
+  | restart => exact h
+
+/-- over every run, with cuts anywhere: a flagged open message has its certificate stored -/
+theorem run_flagged (E : Env) : ∀ (evs : List Event) (s : St), Flagged s.oms s.certs →
+    Flagged (evs.foldl (step E) s).oms (evs.foldl (step E) s).certs := by
+  intro evs
+  induction evs with
+  | nil => intro s h; exact h
+  | cons ev r ih => intro s h; exact ih _ (step_flagged E s ev h)
+
+theorem flagged_init (n g : Nat) : Flagged (init n g).oms (init n g).certs := by
+  intro o ho; simp [init] at ho
+
+/-! ### a concrete history (non-vacuity) -/
+
+def Ex : Env :=
+  { entityEpoch := fun e => e / 10, entityDisc := fun e => e % 10, quorum := fun _ rows => quorumIdx 2 rows,
+    timeout := fun _ => some 1000 }
+
+theorem Ex_quorum : QuorumByIndices Ex 2 := fun _ _ h => h
+
+def tpx (ep : Nat) (av : List Nat) : Tp := { epoch := ep, now := 1, avail := av, newmsg := 100 + ep }
+
+/-- parties 0 and 1, two lottery indices each -/
+def rdx (ep : Nat) (av : List Nat) : Round :=
+  { tp := tpx ep av, parties := [0, 1], idx := fun p => [2 * p, 2 * p + 1], sigma := fun p => 50 + p }
+
+/-- genesis at epoch 1 with two signers; epoch 2 is initialised, registrations for epoch 3 arrive, the
+open message of entity 20 gets a signature that reaches the quorum -/
+def hist : List Event :=
+  [.tick (tpx 1 []), .register 2 0, .register 2 1, .tick (tpx 2 [20]), .tick (tpx 2 [20]), .register 3 0, .register 3 1,
+   .tick (tpx 2 [20]), .signature 20 (honestSig (rdx 2 [20]) 102 0)]
+
+def allPoints : List CrashPoint :=
+  [.certBeforeInsert, .certAfterInsert, .certAfterUpdate, .artBeforeCompute, .artAfterCompute, .artAfterInsert,
+   .hoBefore, .hoBeforeRemoval, .hoAfterRemoval]
+
+/-- the state after the history, a tick cut at `p`, and the restart -/
+def postCrash (p : CrashPoint) : St := step Ex (step Ex (hist.foldl (step Ex) (init 2 1)) (.crash (tpx 2 [20]) p)) .restart
+
+/-! ### why the signers have to submit after the restart (the note "a stop before the hand-over leaves
+that beacon's buffered signatures unused") -/
+
+/-- epoch 2 initialised, the state machine READY, both parties' authenticated signatures for the coming
+open message of entity 20 already in the buffer -/
+def histBuf : List Event :=
+  [.tick (tpx 1 []), .register 2 0, .register 2 1, .tick (tpx 2 [20]), .tick (tpx 2 [20]),
+   .signature 20 (honestSig (rdx 2 [20]) 102 0), .signature 20 (honestSig (rdx 2 [20]) 102 1)]
+
+/-- … then the tick that creates the open message is cut before the hand-over and the process restarts -/
+def stuck0 : St :=
+  [Event.crash (tpx 2 [20]) .hoBefore, .restart].foldl (step Ex) (histBuf.foldl (step Ex) (init 2 1))
+
+/-- three ticks later: SIGNING for entity 20, nothing in the signature table, both signatures still buffered -/
+def stuck : St := [Event.tick (tpx 2 [20]), .tick (tpx 2 [20]), .tick (tpx 2 [20])].foldl (step Ex) stuck0
+
+theorem stuck_fixpoint : step Ex stuck (.tick (tpx 2 [20])) = stuck := by rfl
+
+/-- ticks alone never certify the interrupted round: the buffered signatures are only handed over when
+the open message is created, and that happened in the cut tick -/
+theorem stuck_for_ever (n : Nat) : ((List.replicate n (Event.tick (tpx 2 [20]))).foldl (step Ex) stuck) = stuck := by
+  induction n with
+  | zero => rfl
+  | succ n ih => rw [List.replicate_succ, List.foldl_cons, stuck_fixpoint]; exact ih
+
+theorem stuck_facts : stuck.rt = .signing 2 20 ∧ stuck.certs.length = 1 ∧ stuck.sigs = [] ∧ stuck.buf.length = 2 := by
+  decide +kernel
+
+/-- without the cut the same ticks certify entity 20 from the buffered signatures -/
+theorem not_stuck_without_crash :
+    (([Event.tick (tpx 2 [20]), .restart, .tick (tpx 2 [20]), .tick (tpx 2 [20]), .tick (tpx 2 [20])].foldl (step Ex)
+      (histBuf.foldl (step Ex) (init 2 1))).certs.map (·.entity)) = [none, some 20] := by
+  decide +kernel
+
+/-- and with the cut, the productive continuation (the parties submit again) certifies it -/
+theorem stuck_resolved_by_resubmission :
+    Productive Ex 2 stuck0 (rdx 2 [20]) ∧
+    (((cont Ex stuck0 (rdx 2 [20])).foldl (step Ex) stuck0).certs.map (·.entity)) = [none, some 20] := by
+  decide +kernel
 
 end Agg
